@@ -20,7 +20,8 @@ import traceback
 ROOT = os.path.dirname(os.path.dirname(os.path.abspath(__file__)))
 REPO = os.environ.get("VERIF_REPO", "/repo")
 
-LEMMA_MODULES = ["lemmas.asm_forms"]
+LEMMA_MODULES = ["lemmas.asm_forms", "lemmas.asm_special", "lemmas.asm_data", "lemmas.asm_expr", "lemmas.asm_layout",
+                 "lemmas.tape", "lemmas.disk", "lemmas.vfile", "lemmas.cli", "lemmas.frames", "lemmas.meta", "lemmas.include"]
 
 
 def all_lemmas():
@@ -103,6 +104,51 @@ def fail_key(lemma, cell, f):
     return "%s|%s|%s|%s" % (lemma, cell, f["clause"], f.get("signature"))
 
 
+def _tree_hash(root, subdirs, skip_tests=False):
+    h = hashlib.sha256()
+    for sd in subdirs:
+        base = os.path.join(root, sd)
+        if os.path.isfile(base):
+            files = [base]
+        else:
+            files = []
+            for dp, dn, fn in os.walk(base):
+                dn[:] = sorted(d for d in dn if d not in (".git", "__pycache__", "test", ".work", ".venv", "replays", "evidence"))
+                for f in sorted(fn):
+                    if f.endswith(".py"):
+                        files.append(os.path.join(dp, f))
+        for p in sorted(files):
+            h.update(os.path.relpath(p, root).encode())
+            with open(p, "rb") as fh:
+                h.update(fh.read())
+    return h.hexdigest()[:20]
+
+
+def cache_dir():
+    """results are a deterministic function of (repo sources, verifier sources, cell, timeout): memoised on disk so that
+    the checks of several properties that share a lemma do not recompute its cells.  VERIF_NOCACHE=1 disables."""
+    if os.environ.get("VERIF_NOCACHE"):
+        return None
+    key = _tree_hash(REPO, ["."]) + "-" + _tree_hash(ROOT, ["pyvc", "lemmas", "specs", "contracts"])
+    base = os.path.join(ROOT, ".work", "cache")
+    d = os.path.join(base, key)
+    os.makedirs(d, exist_ok=True)
+    try:
+        olds = sorted((os.path.getmtime(os.path.join(base, x)), x) for x in os.listdir(base) if x != key)
+        import shutil
+        for _, x in olds[:-3]:
+            shutil.rmtree(os.path.join(base, x), ignore_errors=True)
+    except OSError:
+        pass
+    return d
+
+
+def _cache_path(cdir, task):
+    lname, cell, timeout_ms = task
+    k = hashlib.sha1(("%s|%s|%d|%s" % (lname, cell["id"], timeout_ms, json.dumps(cell, sort_keys=True, default=str))).encode()).hexdigest()
+    return os.path.join(cdir, "%s-%s.json" % (lname, k))
+
+
 def run_property(prop, tier, seed, jobs=None, only=None, timeout_ms=None):
     t0 = time.time()
     lemmas = [l for l in all_lemmas() if prop in l.props]
@@ -120,6 +166,24 @@ def run_property(prop, tier, seed, jobs=None, only=None, timeout_ms=None):
             tasks.append((l.name, c, timeout_ms))
     jobs = jobs or min(16, os.cpu_count() or 4)
     results = []
+    cdir = cache_dir()
+    todo = []
+    cache_hits = 0
+    for t in tasks:
+        if cdir:
+            cp = _cache_path(cdir, t)
+            if os.path.exists(cp):
+                try:
+                    with open(cp) as fh:
+                        results.append(json.load(fh))
+                    cache_hits += 1
+                    continue
+                except Exception:  # noqa
+                    pass
+        todo.append(t)
+    all_tasks = tasks
+    tasks = todo
+    fresh = []
     if tasks:
         if jobs == 1:
             _winit()
@@ -128,7 +192,23 @@ def run_property(prop, tier, seed, jobs=None, only=None, timeout_ms=None):
             with mp.Pool(jobs, initializer=_winit) as pool:
                 for r in pool.imap_unordered(_wrun, tasks, chunksize=max(1, min(16, len(tasks) // (jobs * 8) or 1))):
                     results.append(r)
-    return summarize(prop, tier, seed, lemmas, tasks, results, time.time() - t0)
+                    fresh.append(r)
+    if jobs == 1:
+        fresh = results[cache_hits:]
+    if cdir:
+        byid = {(t[0], t[1]["id"]): t for t in tasks}
+        for r in fresh:
+            t = byid.get((r["lemma"], r["cell"]))
+            if t is None or any("crash" in e for e in r["errors"]):
+                continue
+            try:
+                with open(_cache_path(cdir, t), "w") as fh:
+                    json.dump(r, fh, default=str)
+            except Exception:  # noqa
+                pass
+    s = summarize(prop, tier, seed, lemmas, all_tasks, results, time.time() - t0)
+    s["cache_hits"] = cache_hits
+    return s
 
 
 def summarize(prop, tier, seed, lemmas, tasks, results, wall):
@@ -252,10 +332,15 @@ def report(s, manifest_level):
         print("CHECKER-ERROR: zero obligations generated for %s" % prop)
         code = 3
     write_evidence(s, manifest_level, code)
-    print("%s %s: %d obligations, %d discharged, %d refuted+known, %d undecided, %d violations; bounded %d/%d; %d cells, %d paths, "
-          "%d queries, solver %.1fs, wall %.1fs -> exit %d" %
-          (prop, s["tier"], s["n_obl"], s["n_dis"], s["n_known"], s["n_und"], len(s["violations"]), s["bounded_dis"], s["bounded_obl"],
-           s["cells"], s["paths"], s["queries"], s["solver_s"], s["wall"], code))
+    print("%s %s: %d obligations, %d discharged, %d refuted+known, %d undecided, %d violations, %d spurious, %d errors; bounded %d/%d; "
+          "%d cells, %d paths, %d queries, solver %.1fs, wall %.1fs -> exit %d" %
+          (prop, s["tier"], s["n_obl"], s["n_dis"], s["n_known"], s["n_und"], len(s["violations"]), len(s["spurious"]), len(s["errors"]),
+           s["bounded_dis"], s["bounded_obl"], s["cells"], s["paths"], s["queries"], s["solver_s"], s["wall"], code))
+    if os.environ.get("VERIF_DEBUG"):
+        for e in s["errors"][:20]:
+            print("  ERR", e)
+        for f in s["spurious"][:20]:
+            print("  SPURIOUS", f["_key"], f["holes"], f.get("info"))
     return code
 
 
@@ -295,6 +380,7 @@ def write_evidence(s, level, code):
                        "obligations (never counted as proved): %d of %d hold" %
                        (s["n_obl"], s["n_dis"], s["n_known"], s["n_und"], len(s["violations"]), s["bounded_dis"], s["bounded_obl"]),
         "sources": source_hashes(),
+        "cells_reused_from_cache": s.get("cache_hits", 0),
     }
     lvl = level
     if level == "proof" and not all_ok:
